@@ -55,6 +55,8 @@ enum Consumer {
     Collect,
     PartitionGt1,
     ReduceG,
+    /// the folding function is the result of an effectful expression: evaluated once, before the first pull
+    ReduceFactory,
     Sum,
     Product,
     BitAnd,
@@ -235,6 +237,16 @@ fn reference(source: &Source, stages: &[Stage], consumer: Consumer, pulls: usize
             }
             acc.to_string()
         }
+        Consumer::ReduceFactory => {
+            log.push(700);
+            let mut acc: i64 = 0;
+            while let Some(x) = it.pull(&mut log) {
+                let i = int_of(&x);
+                log.push(400 + i);
+                acc = acc.wrapping_mul(10).wrapping_add(i);
+            }
+            acc.to_string()
+        }
         Consumer::Sum | Consumer::Product | Consumer::BitAnd | Consumer::BitOr => {
             let mut acc: i64 = match consumer {
                 Consumer::Sum => 0,
@@ -349,6 +361,7 @@ fn program(source: &Source, stages: &[Stage], consumer: Consumer, pulls: usize, 
         Consumer::All => format!("r := {it} $&&;"),
         Consumer::Any => format!("r := {it} $||;"),
         Consumer::For => format!("acc := mut [any] []; for x in {it} {{ acc += [x] }}; r := *acc;"),
+        Consumer::ReduceFactory => format!("mkg := () -> (int, int) -> int {{ log += [700]; return g }}; r := {it} $ 0 mkg();"),
         Consumer::ForEmptyBody => format!("for x in {it} {{ }}; r := ();"),
         Consumer::ForConstantBody => format!("for x in {it} {{ 1; \"two\" }}; r := ();"),
         Consumer::ForContinue => format!("for x in {it} {{ continue }}; r := ();"),
@@ -445,7 +458,7 @@ fn jobs(thorough: bool) -> Vec<Job> {
         }
     }
     let int_consumers = [
-        Consumer::Collect, Consumer::PartitionGt1, Consumer::ReduceG, Consumer::Sum, Consumer::Product, Consumer::BitAnd,
+        Consumer::Collect, Consumer::PartitionGt1, Consumer::ReduceG, Consumer::ReduceFactory, Consumer::Sum, Consumer::Product, Consumer::BitAnd,
         Consumer::BitOr, Consumer::For, Consumer::ForEmptyBody, Consumer::ForConstantBody, Consumer::ForContinue, Consumer::ForBreak, Consumer::Manual,
     ];
     for s in &sources {
